@@ -365,3 +365,9 @@ func fnName(fn *ssa.Function) string {
 	s = strings.ReplaceAll(s, modPath, "raft")
 	return s
 }
+
+// isOurPath: packages whose code and fields the analysis reasons about: the
+// analysed module, and the analyser's own control package.
+func isOurPath(path string) bool {
+	return strings.HasPrefix(path, modPath) || path == "fixtures"
+}
